@@ -810,6 +810,8 @@ func ruleR9(c *Ctx) *RuleResult {
 						if d := needleDesc(p, cc.Args[1]); d != "" {
 							name += "(needle:" + d + ")"
 						}
+					} else if strings.HasPrefix(name, "bytes.") && len(cc.Args) == 2 && cc.Args[1] == data {
+						name += "(input as needle)"
 					}
 					badF = append(badF, fmt.Sprintf("→%s|raw input handed to %s at %s", name, name, p.InstrPos(ref)))
 				default:
